@@ -19,6 +19,7 @@ type gen struct {
 	sink   *Sink
 	rep    *reporter
 	skip13 bool
+	forceMB bool
 	skip14 bool
 	histNo int
 	limit  int // hard limit on sink.N for the current history
@@ -247,6 +248,9 @@ func (g *gen) history(remaining int) {
 	if g.histNo == 2 {
 		kind = "zset"
 	}
+	if g.histNo == 3 {
+		kind = "map" // MapBuilder used after Build (must panic and leave the built Map alone)
+	}
 	if strings.HasPrefix(kind, "z") && g.hid == 5 {
 		g.hid = Pick(g.r, 0, 4, 6)
 	}
@@ -314,6 +318,11 @@ func (g *gen) history(remaining int) {
 		g.forceSB = true
 		g.builderPhase()
 		g.forceSB = false
+	}
+	if g.histNo == 3 {
+		g.forceMB = true
+		g.builderPhase()
+		g.forceMB = false
 	}
 	if g.histNo == 2 && !g.skip14 {
 		g.emit(L(A(Pick(g.r, "diff", "intersect")), I(0)))
@@ -761,6 +770,10 @@ func (g *gen) builderPhase() {
 		isSet = true
 		n = Pick(g.r, 5, 9, 12, 18)
 	}
+	if g.forceMB {
+		isSet = false
+		n = Pick(g.r, 5, 9, 12, 18)
+	}
 	addKey := func(keys []int) int {
 		k := g.key()
 		if len(keys) > 0 && g.r.Intn(5) == 0 {
@@ -780,14 +793,15 @@ func (g *gen) builderPhase() {
 		}
 		g.emit(L(A("mb"), A("build")))
 		g.queries(g.r.Intn(3) == 0)
-		if g.r.Bool() {
+		if g.forceMB || g.r.Bool() {
 			// the builder is invalid now: both must panic, and the map must be unaffected
 			built := g.it.cur
 			g.it.count("builder:map-use-after-build")
-			if g.r.Bool() {
+			if g.forceMB || g.r.Bool() {
 				g.emit(L(A("mb"), A("add"), I(g.key()), I(g.val())))
+				g.emit(L(A("check"), I(built)))
 			}
-			if g.r.Bool() {
+			if g.forceMB || g.r.Bool() {
 				g.emit(L(A("mb"), A("build")))
 			}
 			g.emit(L(A("check"), I(built)))
